@@ -184,6 +184,17 @@ def check_case(kind, depth, acc, apex, cs, part, full_cache):
                 again = (one.count_leaf_tiles(), one.count_live_tiles(), one.count_operations())
                 v = []
                 one.visit_leaves(lambda pos, tile: v.append(tuple(pos)), parallel=1)
+                # `depth` is documented as changeable: the same restricted instance, one level deeper
+                if depth <= 3:
+                    one.depth = depth + 1
+                    m2 = stages.ref_model(kind, depth + 1, acc, apex)
+                    deeper = (one.count_leaf_tiles(), one.count_live_tiles(), one.count_operations())
+                    v3, w3 = [], []
+                    one.visit_leaves(lambda pos, tile: v3.append(tuple(pos)), parallel=1)
+                    one.walk(lambda pos: w3.append(tuple(pos)), parallel=1)
+                    if deeper != m2.counts() or sorted(v3) != sorted(tuple(p) for p in m2.leaves) or sorted(w3) != sorted(tuple(p) for p in m2.ops):
+                        bad("history/depth-changed-after-subpyramid", "after subpyramid(%r) and depth = %d: counts %r, %d leaves visited, %d parents walked; reference %r, %d, %d" % (apex, depth + 1, deeper, len(v3), len(w3), m2.counts(), len(m2.leaves), len(m2.ops)))
+                    one.depth = depth
             if after != (n_leaf_ref, n_live_ref, n_ops_ref) or again != after or sorted(v) != sorted(tuple(p) for p in model.leaves):
                 bad("history/counts-after-subpyramid", "one instance: counts before subpyramid() %r, after %r (asked again %r), fresh instance / reference %r; leaves visited %d" % (before, after, again, (n_leaf_ref, n_live_ref, n_ops_ref), len(v)))
         except Exception as e:
